@@ -50,7 +50,7 @@ func streamSpecAt(name string, n, max int, mixed bool, prefix string) *spec.Spec
 func c17(args []string) {
 	c := chk.New("C17", "exploration", args)
 	c.Build(false)
-	c.Rule("producer/consumer pairs connected by an {os:..} port: n in {1,2,4} (and 12, 24, 40 with the producers exiting last) streamed items with maxConcurrentTasks in 2n..2n+2 (the producer's regular output, when it has one, feeds a consumer of its own), payload sizes {0,1,4095,65536,65537,1 MiB} (below and above the pipe buffer), exit order forced both ways (producer or consumer lingers after closing its files), producers with only a streaming output and with an additional regular output, producer and consumer taking different numbers of slots with maxConcurrentTasks exactly their sum, two producer processes streaming into one in-port of the consumer, consumers with an ordinary in-port beside the streamed one, every third producer also prints 220 kB to stdout / stderr, the re-run histories put the consumer's own output below plain / nested / parent-relative / absolute directories, SCIPIPE_BUFSIZE and yield seeds varied; history 'complete run, then run again'; oracle: sha256 the consumer read through the FIFO == sha256 the producer wrote (both logged by the commands), consumer output == reference, at the instant Run returns no FIFO and no regular file at the stream path, consumer audit names the producer under Upstream[stream path], hang classification incl. FIFO-blocked children (wchan), re-run terminates and leaves inode/mtime/bytes of consumer outputs untouched. distinct_nontrivial = distinct (n, max, size, exit order, mixed, config) runs whose byte comparison was made")
+	c.Rule("producer/consumer pairs connected by an {os:..} port: n in {1,2,4} (and 12, 24, 40 with the producers exiting last) streamed items with maxConcurrentTasks in 2n..2n+2 (the producer's regular output, when it has one, feeds a consumer of its own), payload sizes {0,1,4095,65536,65537,1 MiB} (below and above the pipe buffer), exit order forced both ways (producer or consumer lingers after closing its files), producers with only a streaming output and with an additional regular output, producer and consumer taking different numbers of slots with maxConcurrentTasks exactly their sum, two producer processes streaming into one in-port of the consumer, consumers with an ordinary in-port beside the streamed one, every third producer also prints 220 kB to stdout / stderr, the re-run histories put the consumer's own output below plain / nested / parent-relative / absolute directories, every fourth run in a working directory whose path contains blanks, SCIPIPE_BUFSIZE and yield seeds varied; history 'complete run, then run again'; oracle: sha256 the consumer read through the FIFO == sha256 the producer wrote (both logged by the commands), consumer output == reference, at the instant Run returns no FIFO and no regular file at the stream path, consumer audit names the producer under Upstream[stream path], hang classification incl. FIFO-blocked children (wchan), re-run terminates and leaves inode/mtime/bytes of consumer outputs untouched. distinct_nontrivial = distinct (n, max, size, exit order, mixed, config) runs whose byte comparison was made")
 	c.Assume("one consumer per streaming port; maxConcurrentTasks >= 2n (each producer and its consumer can run at the same time)")
 	rng := c.Rand("c17")
 	type job struct {
@@ -192,6 +192,9 @@ func c17(args []string) {
 			c.Broken("reference cannot evaluate the streaming workflow: " + exp.Err)
 		}
 		desc := map[string]interface{}{"stream_path_prefix": prefix, "n": j.n, "max": j.max, "payload_size": j.size, "exit_order": j.order, "producer_has_regular_output": j.mixed, "producer_cores": j.pc, "consumer_cores": j.cc, "two_producers_one_in_port": j.fanin, "chatty_producer": j.chatter, "cfg": j.cfg, "spec": s, "behav": bh}
+		if !j.rerun && i%4 == 2 {
+			j.cfg.WdRel = "my project/run 1" // the workflow's working directory has blanks in its name
+		}
 		cfg1 := j.cfg
 		cfg1.SoftSec = 0
 		res := execSpec(c, root, s, cfg1, bh, false, 0)
@@ -244,7 +247,11 @@ func c17(args []string) {
 			}
 			// audit
 			for _, ct := range exp.ByProc["CONS"] {
-				a, err := mon.LoadAudit(filepath.Join(root, mon.RootRel(root, ct.Outs["out"])+".audit.json"))
+				ap := filepath.Join(res.Wd, ct.Outs["out"]+".audit.json")
+				if filepath.IsAbs(ct.Outs["out"]) {
+					ap = ct.Outs["out"] + ".audit.json"
+				}
+				a, err := mon.LoadAudit(ap)
 				if err != nil {
 					ps = append(ps, mon.Problem{Sig: "audit-file-unreadable", Msg: err.Error()})
 					continue
